@@ -34,6 +34,8 @@ type World struct {
 	famIDs map[string]int
 	// AfterOp is called (world lock held) after every event-emitting operation; n = operations so far
 	AfterOp func(n int, ev string)
+	// AfterOpF: the same with the fields of the event (also when Silent)
+	AfterOpF func(n int, ev string, f trace.F)
 	nops    int
 	// Gate, when set, is called (no lock held) before an operation proceeds: label, family/num
 	Gate func(label string)
@@ -103,6 +105,9 @@ func (w *World) emit(ev string, f trace.F) {
 	w.nops++
 	if w.AfterOp != nil {
 		w.AfterOp(w.nops, ev)
+	}
+	if w.AfterOpF != nil {
+		w.AfterOpF(w.nops, ev, f)
 	}
 }
 
@@ -278,9 +283,10 @@ func recordFields(rec []byte) trace.F {
 
 type manifestWriter struct {
 	bufioutil.BufioWriter
-	w    *World
-	num  int64
-	last []byte
+	w     *World
+	num   int64
+	last  []byte
+	store string // directory of the store the manifest belongs to
 }
 
 func (m *manifestWriter) Write(b []byte) (int, error) {
@@ -295,7 +301,7 @@ func (m *manifestWriter) Sync() error {
 		f := recordFields(m.last)
 		f["num"] = m.num
 		m.last = nil
-		m.w.emit("ManifestAppend", trace.F{"num": m.num, "rec": f})
+		m.w.emit("ManifestAppend", trace.F{"num": m.num, "rec": f, "store": m.store})
 	}
 	return err
 }
@@ -366,7 +372,7 @@ func Install() {
 			}
 			n := manifestNum(fileName)
 			w.emit("ManifestCreate", trace.F{"num": n})
-			return &manifestWriter{BufioWriter: bw, w: w, num: n}, nil
+			return &manifestWriter{BufioWriter: bw, w: w, num: n, store: filepath.Dir(fileName)}, nil
 		},
 		NewBufferReader: orig.v.NewBufferReader,
 		WriteFile: func(name string, data []byte, perm fs.FileMode) error {
